@@ -12,6 +12,7 @@ Functions under contract (real code, re-read every run):
   context_processors.py :: ContextProcessor.operate_context, _notify_context_update, _notify_context_deletion
   factory.py :: _context_renamer_factory.<locals>._process_logic, _context_deleter_factory.<locals>._process_logic
   data_processors.py :: DataOperation._notify_context_update
+  payload_processors.py :: _PayloadProcessor.process  (entry normalisation: None payload / None data / plain-dict context)
 Spec functions: Resolve (config > context > default), Logic_p (uninterpreted processor logic).
 """
 from __future__ import annotations
@@ -617,8 +618,99 @@ class DataOpSpec(LSpec):
         return z3.BoolVal(True)
 
 
-TASKS = [h_default_for, h_resolve, h_get_params, h_data_node_process, h_probe_node, h_validating_observer, h_rename_delete, h_dataop_notify]
-FACTORIES = {"h_default_for": MetaSpec, "h_data_node_process": NodeSpec, "h_probe_node": NodeSpec, "h_dataop_notify": DataOpSpec}
+PP = "semantiva/pipeline/payload_processors.py"
+
+
+class EntrySpec(BaseSpec):
+    """_PayloadProcessor.process: the entry every node is driven through"""
+
+    def __init__(self):
+        super().__init__(PROP)
+        self.inline |= {(PP, "_PayloadProcessor.process")}
+        self.inline_files |= {PAYLOAD}
+        self.obj_methods = {"start": lambda I, r, a, k, s: NONE, "stop": lambda I, r, a, k, s: NONE}
+
+    def instantiate_override(self, I, ci, args, kwargs, star):
+        if ci.name == "NoDataType":
+            return V.obj(fresh("NoDataType_instance", core.I))
+        if ci.name == "ContextType":
+            return V.obj(z3.Function("ContextTypeOf", V, core.I)(I.lift(args[0]) if args else NONE))
+        return MISSING
+
+    def inst_attr_override(self, I, v, ci, name):
+        if name == "input_data_type":
+            return O.HExt("c01.input_data_type")
+        return None
+
+    def ext_call(self, I, dotted, args, kwargs, star):
+        if dotted == "c01.input_data_type":
+            return self.CUR["in_type"]
+        return super().ext_call(I, dotted, args, kwargs, star)
+
+    def call_override(self, I, f, args, kwargs, star):
+        fn = f.func if isinstance(f, O.HBound) else f
+        if isinstance(fn, O.HFunc) and fn.node.name == "_process":
+            self.CUR["arg"] = I.lift(args[-1])
+            self.CUR["calls"] = self.CUR.get("calls", 0) + 1
+            self.CUR["result"] = V.obj(fresh("process_result", core.I))
+            return self.CUR["result"]
+        return MISSING
+
+
+def h_entry(spec):
+    """data handed to _process is the caller's data object itself, replaced by NoDataType() only when it is None and the node
+    consumes no data; the context object is the caller's (a plain dict is wrapped once); the result is _process's result"""
+    fn_info(spec, PP, "_PayloadProcessor.process")
+
+    def body(I):
+        st = I.st
+        pp_ci = cls_of(I, PP, "_PayloadProcessor")
+        pl_ci = cls_of(I, PAYLOAD, "Payload")
+        mod = source.load_module(PP)
+        nodata = I.resolve_global(mod, "NoDataType")
+        me = in_inst(I, "node", pp_ci, {"stop_watch": V.obj(z3.Int("stop_watch"))})
+        # input_data_type(): NoDataType (a source-like node) or some other class
+        consumes_nothing = st.choose(2, "input type is NoDataType?") == 0
+        in_type = nodata if consumes_nothing else V.cls(z3.Int("SomeDataTypeClass"))
+        if not consumes_nothing and isinstance(nodata, O.ClassInfo):
+            st.assume(z3.Int("SomeDataTypeClass") != nodata.cid)
+        spec.CUR = {"me": me, "in_type": in_type, "arg": None}
+        shape = st.choose(3, "payload argument")
+        data = z3.Const("data", V)
+        st.assume(z3.Or(data == NONE, V.is_obj(data)))
+        ctx_obj = V.obj(z3.Int("context_object"))
+        if shape == 0:
+            payload = NONE
+        elif shape == 1:
+            payload = in_inst(I, "payload", pl_ci, {"data": data, "context": ctx_obj})
+        else:
+            payload = in_inst(I, "payload", pl_ci, {"data": data, "context": in_dict(I, "plain_context")})
+        _, f = E.method_of(I, PP, "_PayloadProcessor", "process")
+        out = E.execute(I, f, [me, payload])
+        spec.oblige(I, "process/never-raises-by-itself", z3.BoolVal(out[0] == "return"))
+        got = spec.CUR["arg"]
+        spec.oblige(I, "process/_process-called-exactly-once", z3.BoolVal(got is not None and spec.CUR.get("calls") == 1))
+        if got is None or out[0] != "return":
+            return
+        h = st.h
+        gd, gc = fld(h, got, "data"), fld(h, got, "context")
+        is_nodata = lambda v: z3.And(V.is_obj(v), z3.BoolVal("NoDataType_instance" in str(z3.simplify(v))))
+        if shape == 0:
+            spec.oblige(I, "process/no-payload:_process-gets-NoDataType-and-a-fresh-context", is_nodata(gd))
+        else:
+            want_keep = z3.Not(z3.And(data == NONE, z3.BoolVal(consumes_nothing)))
+            spec.oblige(I, "process/the-caller's-data-object-reaches-_process-unchanged(unless-None-for-a-node-without-input)",
+                        z3.Implies(want_keep, gd == data), meta={"witness": "data-replaced"})
+            spec.oblige(I, "process/None-becomes-NoDataType-only-for-a-node-without-input",
+                        z3.Implies(z3.Not(want_keep), is_nodata(gd)))
+            if shape == 1:
+                spec.oblige(I, "process/the-caller's-context-object-reaches-_process", gc == ctx_obj)
+        spec.oblige(I, "process/returns-what-_process-returned", I.lift(out[1]) == spec.CUR["result"])
+    E.run_function(spec, "_PayloadProcessor.process", body)
+
+
+TASKS = [h_default_for, h_resolve, h_get_params, h_data_node_process, h_probe_node, h_validating_observer, h_rename_delete, h_dataop_notify, h_entry]
+FACTORIES = {"h_default_for": MetaSpec, "h_data_node_process": NodeSpec, "h_probe_node": NodeSpec, "h_dataop_notify": DataOpSpec, "h_entry": EntrySpec}
 
 
 def factory():
